@@ -131,8 +131,10 @@ class TimeTriggerDecorator(TriggerDecorator):
                 await asyncio.sleep(timeout)
                 _LOGGER.debug("%s finish sleeping for %s seconds", self, timeout)
                 while True:
+                    # time_next_adj only gives the right wait relative to the "now" it was computed
+                    # for (DST changes); an early wake-up is checked against the wall-clock time_next
                     now = dt_now()
-                    timeout = (time_next_adj - now).total_seconds()
+                    timeout = (time_next - now).total_seconds()
                     if timeout <= 1e-6:
                         break
                     _LOGGER.debug("%s additional sleep for %s seconds", self, timeout)
